@@ -39,13 +39,17 @@ GEN = ("rapid draws a Case = generated topology (1-4 pools over 2-4 node subnets
        "the real decoder) + 1-3 workloads (statefulset, deployment, deployment with pool, scalable/non-scalable custom resource, bare pod; "
        "policies default/immutable/never) + a history of 15-60 operations with abstract picks (create/recreate-same-name/schedule=filter+bind/"
        "filter/bind/phase/delete/deliver or drop informer event/run queued unbind/resync/pod-IP sync/scale/delete app/API release/pool API/"
-       "reserve/restart/lister sync/quiesce, phrases of such ops, and concurrent episodes of 2-3 ops interleaved by the cooperative "
-       "scheduler at every lister/IPAM/API call); lister lag in 1/3 of the cases. ")
+       "reserve/restart/lister sync/quiesce, phrases of such ops, and concurrent episodes of 2-4 actors - requests, event handlers, "
+       "resync, reload and the informer's cache update - interleaved by the cooperative scheduler at every lister/IPAM/API/provider "
+       "call, with uniform, bursty, nested and lock-convoy schedule shapes); lister lag in 1/3 of the cases; multi-IP "
+       "(request_ip_range) workloads in 1/4. ")
 
 CHECKS.update({
     "C01": hist("TestC01", GEN + "Oracle after every op and every scheduler step: tables disjoint and = configured set, payloads of live "
                 "bound pods pairwise disjoint, no live pod's IP owned by another pod key. Non-trivial = >=2 pods bound and (an IP changed "
-                "owner, or an episode overlapped >=2 ops); distinct by SHA-1 of the case.", floors={"two_pods_bound": 0.2, "same_name_recreated": 0.3}, enum=True),
+                "owner, or an episode overlapped >=2 ops); distinct by SHA-1 of the case. A quarter of the histories carry one injected API error "
+                "(internal/conflict/timeout on the k-th API call of a drawn op or episode); reloads and restarts are drawn; an IP an "
+                "administrator de-configured while in use is exempt from then on.", floors={"two_pods_bound": 0.2, "same_name_recreated": 0.3}, enum=True),
     "C02": hist("TestC02", GEN + "Biased to immutable/never/pool workloads and delete/recreate/reschedule. Oracle per filter/bind: a pod "
                 "whose key holds a reserved IP is only offered nodes routable for it and is bound with exactly that IP; a deployment/pool "
                 "pod whose app prefix holds reserved IPs gets one of them. Non-trivial = a binding happened while a reservation for that "
@@ -57,7 +61,8 @@ CHECKS.update({
     "C04": hist("TestC04", GEN + "Biased to same-name re-creation with late/duplicate unbind sources, resync, API release, reloads that keep "
                 "the IP, pod-IP sync. Oracle after every op and scheduler step: every live bound pod's still-configured IP is allocated to "
                 "its key, and the provider was not asked to unassign it. Non-trivial = a release path ran while a same-named replacement "
-                "was live and bound.", quick=4000, floors={"same_name_recreated": 0.3}, enum=True),
+                "was live and bound. One injected API error in a quarter of the histories; a workload's pod template may change its "
+                "request_ip_range between incarnations.", quick=4000, floors={"same_name_recreated": 0.3}, enum=True),
     "C10": hist("TestC10", GEN + "Recording cloud provider with cleanly failing calls. Oracle: per-IP state machine none|on(node) replayed "
                 "over the call log after every op/step (no assign to a second node while assigned, live bound pod's IP on its node, free "
                 "IP unassigned). Non-trivial = a pod identity was bound on two different nodes or a provider call failed.",
